@@ -75,6 +75,8 @@ PROBES = [
     ("critical", "mov r0,,r1\n"),
     ("reg", "mov (%a)+, r0\na = 3\n"),
     ("end", "nop\n.end\ngarbage ,,,\n"),
+    # paths that merely look like device names, used from a source outside the working directory
+    ("devlike", "nop\nmake_raw \"~dump\"\nmake_bin \"~tmp\"\nmake_raw \"~dump x\"\n", "src/pdev.mac"),
 ]
 
 
@@ -102,15 +104,16 @@ def text_op(rng, text, mode=None, name="probe.mac"):
     """Operation assembling one literal source text, as CLI or LIB."""
     path = cliwork.CWD + "/" + name
     mode = mode or rng.choice(["cli", "lib"])
+    dirs = [cliwork.CWD] + ([path.rsplit("/", 1)[0]] if "/" in name else [])
     if mode == "cli":
         argv = [name, "-o", "probe.bin"]
         if rng.random() < 0.5:
             argv += ["--report-format", "bare"]
         if rng.random() < 0.3:
             argv.append("--lst")
-        return {"kind": "cli", "argv": argv, "files": {path: text.encode()}, "dirs": [cliwork.CWD], "cwd": cliwork.CWD,
+        return {"kind": "cli", "argv": argv, "files": {path: text.encode()}, "dirs": dirs, "cwd": cliwork.CWD,
                 "readonly": [], "stdin": None, "faults": []}
-    return {"kind": "lib", "sources": [(path, text)], "files": {path: text.encode()}, "dirs": [cliwork.CWD],
+    return {"kind": "lib", "sources": [(path, text)], "files": {path: text.encode()}, "dirs": dirs,
             "cwd": cliwork.CWD, "charset": "bk", "handler": "collect", "emit": rng.random() < 0.3,
             "listing": rng.random() < 0.3}
 
@@ -195,7 +198,11 @@ def make_history(rng, tier="quick"):
             # a missing input file
             op = make_cli_op(rng, "valid")
             k2 = rng.random()
-            if k2 < 0.25:
+            if k2 < 0.15:
+                # an output whose name merely looks like a device ('~name')
+                op = text_op(rng, "nop\nhalt\n", "cli")
+                op["argv"] = ["probe.mac", "-o", rng.choice(["~dump", "~tmp", "~dump x"])]
+            elif k2 < 0.25:
                 op["argv"] = ["--version"]
             elif k2 < 0.5:
                 op["argv"] = list(op["argv"]) + ["--no-such-option"]
@@ -217,8 +224,8 @@ def make_history(rng, tier="quick"):
             op["reclimit_extra"] = rng.randint(120, 400)
         ops.append((cls, op))
     for _ in range(rng.randint(1, 3)):
-        name, text = rng.choice(PROBES)
-        ops.append(("probe:" + name, text_op(rng, text)))
+        pr = rng.choice(PROBES)
+        ops.append(("probe:" + pr[0], text_op(rng, pr[1], None, *pr[2:])))
     if rng.random() < 0.5:
         ops.append(("valid", make_cli_op(rng, "valid")))
     return ops
@@ -288,7 +295,7 @@ def run_history(ns, ops):
             # search guidance: a broken invariant -> run the whole sensitive probe set right here
             inserted = True
             rng = random.Random(1)
-            queue = [("probe!" + name, text_op(rng, text, mode)) for name, text in PROBES for mode in ("lib", "cli")] + queue
+            queue = [("probe!" + pr[0], text_op(rng, pr[1], mode, *pr[2:])) for pr in PROBES for mode in ("lib", "cli")] + queue
     return {"results": results, "executed": executed, "g0": g0}
 
 
